@@ -17,7 +17,7 @@ func (rt *runtime) cmplEvaluateNodeStatement(node nodeStatement) Value {
 		goruntime.Gosched()
 		select {
 		case value := <-rt.otto.Interrupt:
-			value()
+			rt.runInterrupt(value)
 		default:
 		}
 	}
@@ -298,7 +298,7 @@ resultBreak:
 			goruntime.Gosched()
 			select {
 			case value := <-rt.otto.Interrupt:
-				value()
+				rt.runInterrupt(value)
 			default:
 			}
 		}
